@@ -230,6 +230,27 @@ class GateSpec(H.Spec):
         # which the grid already holds mislabelled data (e.g. through the known column-assignment bypass)
         if self.writers(g, v, places, rep3, st, sig, case) is False or broken:
             return False
+        # grids derived from this one (slices, filter results) are grids too: the same invariant and writers apply
+        if len(g):
+            for what, make in (('slice-all', lambda: g[:]), ('slice-first', lambda: g[0:1]), ('slice-rest', lambda: g[1:]), ('slice-reversed', lambda: g[::-1]),
+                               ('filter-all', lambda: g.filter('c or d or not c')), ('filter-limit', lambda: g.filter('', 1)), ('filter-none', lambda: g.filter('zz'))):
+                got = H.outcome(make)
+                if got[0] != 'ok':
+                    st.fail('derived-grid-raised', dict(sig, derived=what, exc=got[1]), case, {'declared': v})
+                    return False
+                dg = got[1]
+                dplaces = reachable_v3(hs, dg)
+                try:
+                    drep3 = refversion.cmp(str(dg.version), '3.0') >= 0
+                except ValueError:
+                    drep3 = False
+                dsig = dict(sig, derived=what)
+                if dplaces and not drep3:
+                    st.fail('derived-grid-reports-pre-3.0-version-while-holding-3.0-only-value', dsig, case,
+                            {'declared': v, 'source_version': rep, 'derived_version': str(dg.version), 'places': dplaces})
+                    return False
+                if self.writers(dg, v, dplaces, drep3, st, dsig, case) is False:
+                    return False
         return True
 
     def writers(self, g, v, places, rep3, st, sig, case):
@@ -302,6 +323,36 @@ def matrix(st):
                             case, {'zinc': ztext, 'json': jobj, 'all_decisions': {d: o[0] for d, o in decisions.items()}})
             st.count('states')
             st.case(('matrix', v, k), outcome=('matrix', tuple(vec)))
+    # a nested grid carries its own version: 3.0-only data inside a nested grid labelled pre-3.0 must be refused by both
+    # readers wherever it sits in that nested grid (row, grid metadata, column metadata)
+    for inner_v in ('2.0', '1.0'):
+        for k in V3KINDS:
+            for place in ('row', 'meta', 'colmeta'):
+                n = NEUTRAL[k]
+                zval, jval = refzinc.write_scalar(n), refjson.write_scalar(n)
+                if place == 'row':
+                    zinner = 'ver:"%s"\nx\n%s\n' % (inner_v, zval)
+                    jinner = {'meta': {'ver': inner_v}, 'cols': [{'name': 'x'}], 'rows': [{'x': jval}]}
+                elif place == 'meta':
+                    zinner = 'ver:"%s" m:%s\nx\n1\n' % (inner_v, zval)
+                    jinner = {'meta': {'ver': inner_v, 'm': jval}, 'cols': [{'name': 'x'}], 'rows': [{'x': 'n:1'}]}
+                else:
+                    zinner = 'ver:"%s"\nx m:%s\n1\n' % (inner_v, zval)
+                    jinner = {'meta': {'ver': inner_v}, 'cols': [{'name': 'x', 'm': jval}], 'rows': [{'x': 'n:1'}]}
+                ztext = 'ver:"3.0"\nc\n<<%s>>\n' % zinner
+                jobj = {'meta': {'ver': '3.0'}, 'cols': [{'name': 'c'}], 'rows': [{'c': jinner}]}
+                for dec, got in (('zinc-reader', H.outcome(hs.parse, ztext, mode=hs.MODE_ZINC)),
+                                 ('json-reader', H.outcome(hs.parse, json.dumps(jobj), mode=hs.MODE_JSON)),
+                                 ('json-reader-object', H.outcome(hs.parse, jobj, mode=hs.MODE_JSON))):
+                    st.count('executions')
+                    st.count('transitions')
+                    case = {'matrix': True, 'version': 'nested-' + inner_v, 'kind': k, 'decider': dec, 'place': place}
+                    sig = {'decider': dec, 'version': 'nested-pre-3.0-in-3.0-document', 'kind': k, 'place': place}
+                    st.case(('nested', inner_v, k, place, dec), outcome=('nested', got[0]))
+                    if got[0] != 'raise':
+                        st.fail('gating-decision-wrong', dict(sig, expected='refuse', observed='accept'), case, {'zinc': ztext, 'json': jobj})
+                    elif got[1] not in ('ValueError', 'ZincParseException'):
+                        st.fail('gating-decider-raised-other-exception', dict(sig, exc=got[1]), case, {'zinc': ztext})
     st.samples.append({'matrix_cell': {'version': '2.5', 'kind': 'list', 'deciders': 7}})
 
 
